@@ -81,6 +81,7 @@ type VC struct {
 	qfacts    []*QFact
 	witnesses []*Witness
 	deltas    []Term
+	sortDecls *persistDecls
 }
 
 func (vc *VC) warn(format string, args ...interface{}) {
@@ -201,7 +202,12 @@ func (vc *VC) structSort(t types.Type, st *types.Struct) Sort {
 	if len(fields) == 0 {
 		fields = append(fields, fmt.Sprintf("(%s Int)", quote("S:"+key+".!unit")))
 	}
-	vc.decls = append(vc.decls, fmt.Sprintf("(declare-datatypes ((%s 0)) (((%s %s))))", name, quote("mk:"+key), strings.Join(fields, " ")))
+	decl := fmt.Sprintf("(declare-datatypes ((%s 0)) (((%s %s))))", name, quote("mk:"+key), strings.Join(fields, " "))
+	vc.decls = append(vc.decls, decl)
+	if vc.sortDecls != nil {
+		vc.sortDecls.lines = append(vc.sortDecls.lines, decl)
+		vc.sortDecls.keys["sort:"+name] = true
+	}
 	return name
 }
 
